@@ -72,9 +72,9 @@ def g_act(name):
         return "ASet"
     if kind == "Join":
         return f"(AJoin {int(who.split(':W')[1])})"
-    if kind == "PutTimeout":
-        # the modelled code calls put() without a bound: no such action exists in VisitPar.v
-        # (an action that is never enabled makes the replay stop at this step)
+    if kind in ("PutTimeout", "Sleep", "ValueGet", "ValueSet", "LockAcq"):
+        # the modelled code calls put() without a bound, shares no counter and never sleeps: no such
+        # action exists in VisitPar.v (an action that is never enabled makes the replay stop at this step)
         return "(AJoin 4000)"
     w = int(who.split(":")[0][1:])
     if kind == "Recv":
@@ -89,6 +89,7 @@ def g_act(name):
 
 
 def g_trace(trace):
+    trace = trace[:3000]        # a run that never ends is cut; the replay stops at the first foreign action anyway
     return g_list(["(%s, %s)" % (g_list([g_act(n) for n in en]), g_act(ch)) for en, ch in trace])
 
 
